@@ -97,6 +97,14 @@ def _get_parm_type_real(name: str, default: Optional[ArgT] = None) -> Union[VarT
         return default
 
 
+def _quote_if_required(text: str) -> str:
+    """Quote a name or value, unless the tokenizer would read it back as a single bare string."""
+    # A leading slash starts a comment and a leading # a directive, the rest end bare strings.
+    if not text or text[0] in '/#' or any(c in BARE_DISALLOWED for c in text):
+        return f'"{text}"'
+    return text
+
+
 class Material(MutableMapping[str, str]):
     """Represents a material.
 
@@ -283,14 +291,10 @@ class Material(MutableMapping[str, str]):
 
     def export(self, f: TextIO) -> None:
         """Write the material back to a file."""
-        f.write(self.shader + '\n\t{\n')
+        f.write(_quote_if_required(self.shader) + '\n\t{\n')
         for param in self._params.values():
-            name = param.name
-            value = param.value
-            if any(c in BARE_DISALLOWED for c in name):
-                name = f'"{name}"'
-            if not value or any(c in BARE_DISALLOWED for c in value):
-                value = f'"{value}"'
+            name = _quote_if_required(param.name)
+            value = _quote_if_required(param.value)
             f.write(f'\t{name} {value}\n')
         for block in self.blocks:
             block.serialise(f, start_indent='\t')
